@@ -59,6 +59,8 @@ def p_frame(rnd, i=None, emin=-12, emax=-1):
         i = rnd.randrange(62)
     kind, f = FRAME[i]
     eps = 10 ** rnd.uniform(emin, emax)
+    if rnd.random() < 0.03:
+        return geo.vec_to_ll(f)  # the frame point itself, as exactly as lon/lat doubles allow
     if rnd.random() < 0.3 and kind != 'centre':
         # displace along the direction to a neighbouring frame centre (seams / edges run there)
         g = CENTRES[rnd.randrange(12)]
